@@ -5,7 +5,7 @@ from props import endpoint, receiver, resume
 
 def check(pid, tier, replay):
     names = ["da", "db", "dc", "lb", "x"] if tier == "thorough" else ["a", "b", "lb", "x"]
-    gens = [("endpoint/SettleGen", "endpoint/SettleGen_%s.cfg" % n) for n in names] + receiver.gens(tier)[:2] + [("endpoint/SettleRaceGen", "endpoint/SettleRaceGen.cfg"), ("endpoint/StreamGen", "endpoint/StreamGen.cfg")] + endpoint.mix_gens(pid, tier)
+    gens = [("endpoint/SettleGen", "endpoint/SettleGen_%s.cfg" % n) for n in names] + receiver.gens(tier)[:2] + [("endpoint/SettleRaceGen", "endpoint/SettleRaceGen.cfg"), ("endpoint/StreamGen", "endpoint/StreamGen.cfg"), ("endpoint/ResumeSettleGen", "endpoint/ResumeSettleGen.cfg")] + endpoint.mix_gens(pid, tier)
     verdict = vlib.Verdict(pid, tier)
     # what a send resolves with when the link is resumed: the resumption table against the real decision function
     rinfo = resume.stage(verdict, replay)
@@ -17,5 +17,5 @@ def check(pid, tier, replay):
     ev["coverage"]["resumption_table"] = rinfo
     ev["coverage"]["states"] += rinfo.get("states", 0)
     ev["coverage"]["transitions"] += rinfo.get("transitions", 0)
-    ev["coverage"]["rule"] += "; plus every cell (local state x receiver's entry, 132 cells) of the link-resumption table of ResumeTable.tla put to the real resume_delivery through the hook verif::resume_decision"
+    ev["coverage"]["rule"] += "; plus 16 resumption conversations (a sender with one unsettled delivery is detached without closing and resumed; the receiver's attach states that delivery as absent / null / received / each terminal outcome) whose awaited outcome must be the receiver's; plus every cell (local state x receiver's entry, 132 cells) of the link-resumption table of ResumeTable.tla put to the real resume_delivery through the hook verif::resume_decision"
     verdict.finish(ev)
